@@ -285,6 +285,47 @@ func registerVF(e *Engine) {
 		*cell = m.force(&lazyVal{path: name, t: pt.Elem(), root: root})
 		return nil
 	}
+	// vf_Schedule(on): map-iteration order nondeterminism on/off for the code that follows (engine flag -mapsched)
+	vf["vf_Schedule"] = func(fr *frame, args []value) value {
+		fr.m.schedOff = !args[0].(bool)
+		return nil
+	}
+	// vf_RegisterDir(name, infos, badAt) string: an in-memory directory for the scanner stub; returns its path
+	vf["vf_RegisterDir"] = func(fr *frame, args []value) value {
+		m := fr.m
+		path := "zzdir/" + m.concreteString(args[0], "dir name")
+		reg := &dirReg{}
+		if xs, ok := args[1].([]value); ok {
+			reg.infos = append(reg.infos, xs...)
+		}
+		if xs, ok := args[2].([]value); ok {
+			for _, x := range xs {
+				k, ok := x.(int)
+				if !ok {
+					panic(unsupported("vf_RegisterDir: symbolic position"))
+				}
+				reg.badAt = append(reg.badAt, k)
+			}
+		}
+		if m.dirs == nil {
+			m.dirs = map[string]*dirReg{}
+		}
+		m.dirs[path] = reg
+		return path
+	}
+	// vf_CaptureStdout(f) string: the text f writes to standard output with fmt.Print*
+	vf["vf_CaptureStdout"] = func(fr *frame, args []value) value {
+		m := fr.m
+		saved := m.stdout
+		m.stdout = ""
+		m.callFn(args[0])
+		out := m.stdout
+		if saved == nil {
+			saved = ""
+		}
+		m.stdout = strConcat(saved, out)
+		return out
+	}
 	vf["vf_Tier"] = func(fr *frame, args []value) value { return fr.m.eng.Tier }
 	vf["vf_Symbolic"] = func(fr *frame, args []value) value { return true }
 	// vf_NoPanic(f func(), label): a panic inside f is a violation of label
